@@ -242,6 +242,16 @@ impl<'env> Context<'env> {
             closures[closure].insert(key, value.clone());
         }
         top.locals.insert(key, value);
+        #[cfg(all(feature = "verif_hooks", feature = "macros"))]
+        if crate::verif_hooks::closures::enabled() {
+            crate::verif_hooks::closures::log(
+                crate::verif_hooks::closures::Op::Store(
+                    key.to_string(),
+                    self.stack.last().unwrap().closure,
+                ),
+                self.verif_frame_closures(),
+            );
+        }
     }
 
     /// Adds a value to a closure if missing.
@@ -274,6 +284,15 @@ impl<'env> Context<'env> {
     /// the macro.
     #[cfg(all(feature = "multi_template", feature = "macros"))]
     pub fn take_closure(&mut self) -> Option<ClosureId> {
+        #[cfg(feature = "verif_hooks")]
+        if crate::verif_hooks::closures::enabled() {
+            let mut frames = self.verif_frame_closures();
+            let taken = frames.last_mut().and_then(|x| x.0.take());
+            crate::verif_hooks::closures::log(
+                crate::verif_hooks::closures::Op::TakeClosure(taken),
+                frames,
+            );
+        }
         self.stack.last_mut().unwrap().closure.take()
     }
 
@@ -281,6 +300,13 @@ impl<'env> Context<'env> {
     #[cfg(feature = "macros")]
     pub fn reset_closure(&mut self, closure: Option<ClosureId>) {
         self.stack.last_mut().unwrap().closure = closure;
+        #[cfg(feature = "verif_hooks")]
+        if crate::verif_hooks::closures::enabled() {
+            crate::verif_hooks::closures::log(
+                crate::verif_hooks::closures::Op::ResetClosure(closure),
+                self.verif_frame_closures(),
+            );
+        }
     }
 
     /// Return the base context value
@@ -378,12 +404,27 @@ impl<'env> Context<'env> {
             self.stack.pop();
             return Err(err);
         }
+        #[cfg(all(feature = "verif_hooks", feature = "macros"))]
+        if crate::verif_hooks::closures::enabled() {
+            crate::verif_hooks::closures::log(
+                crate::verif_hooks::closures::Op::PushFrame(
+                    self.stack.last().unwrap().current_loop.is_some(),
+                ),
+                self.verif_frame_closures(),
+            );
+        }
         Ok(())
     }
 
     /// Pops the topmost layer.
     #[track_caller]
     pub fn pop_frame(&mut self) -> Frame<'env> {
+        #[cfg(all(feature = "verif_hooks", feature = "macros"))]
+        if crate::verif_hooks::closures::enabled() {
+            let mut frames = self.verif_frame_closures();
+            frames.pop();
+            crate::verif_hooks::closures::log(crate::verif_hooks::closures::Op::PopFrame, frames);
+        }
         self.stack.pop().unwrap()
     }
 
@@ -429,6 +470,11 @@ impl<'env> Context<'env> {
             .rev()
             .find(|x| x.current_loop.is_some())?;
         let item = frame.current_loop.as_mut()?.next();
+        #[cfg(all(feature = "verif_hooks", feature = "macros"))]
+        if item.is_some() && crate::verif_hooks::closures::enabled() {
+            // logged in front of the operation; the attachments show with the next event
+            crate::verif_hooks::closures::log(crate::verif_hooks::closures::Op::Iterate, Vec::new());
+        }
         if item.is_some() {
             frame.locals.clear();
             // every iteration is a scope of its own: macros declared in this
@@ -491,6 +537,17 @@ impl<'env> Context<'env> {
     #[cfg(feature = "multi_template")]
     pub(super) fn restore_stack_depth(&mut self, depth: usize) {
         debug_assert!(self.stack.len() >= depth);
+        #[cfg(all(feature = "verif_hooks", feature = "macros"))]
+        if crate::verif_hooks::closures::enabled() {
+            let mut frames = self.verif_frame_closures();
+            while frames.len() > depth {
+                frames.pop();
+                crate::verif_hooks::closures::log(
+                    crate::verif_hooks::closures::Op::PopFrame,
+                    frames.clone(),
+                );
+            }
+        }
         self.stack.truncate(depth);
     }
 
